@@ -303,10 +303,9 @@ def _r12(model, rep):
              or (isinstance(r.kwargs.get("tind"), tuple)
                  and r.kwargs.get("tind") == tind)]
         Y0 = [r for r in invF if r.kwargs.get("tind") == tn]
-        okY = okG and len(invF) == 2 and all(r.args[0] is G[0]
-                                             for r in invF) and \
-            any(r.kwargs.get("tind") == tind for r in invF) and \
-            any(r.kwargs.get("tind") == tn for r in invF)
+        # pull-backs of the facet points; each use is checked on its own
+        invF = [r for r in invF if okG and r.args and r.args[0] is G[0]]
+        okY = okG and any(r.kwargs.get("tind") == tind for r in invF)
         ybasis = [r for r in invF if r.kwargs.get("tind") == tind]
         ok_gb = okY and len(gb) == 3 and all(
             r.args[1] in ybasis and r.kwargs.get("tind") == tind
